@@ -1,7 +1,7 @@
 (* C48 model: module callback chains (bfe_module/bfe_handler_list.go: HandlerList.Filter* loops) and the
    server's reaction to their verdicts (bfe_server/http_conn.go: conn.serve / serveRequest,
    bfe_server/reverseproxy.go: ServeHTTP / clusterInvoke / FinishReq) for one HTTP/1.1 connection that
-   carries a GET r1 (keep-alive) and then a probe GET r2 ("Connection: close", every handler continues).
+   (plain or TLS) carries a GET r1 (keep-alive) and then a probe GET r2 ("Connection: close", every handler continues).
    Definitions only. *)
 From Coq Require Import List ZArith Bool.
 From Bfe Require Import lib.Val.
@@ -20,6 +20,7 @@ Definition variant (code : Z) : Z := (code / 10) mod 3.
 
 (* ---- callback points (bfe_module/bfe_callback.go) ---- *)
 Definition PAccept : Z := 0.
+Definition PHandshake : Z := 1.
 Definition PBeforeLocation : Z := 2.
 Definition PFoundProduct : Z := 3.
 Definition PAfterLocation : Z := 4.
@@ -58,7 +59,7 @@ Definition RResponse : Z := 4.
 Definition is_request_point (p : Z) : bool := (p =? PBeforeLocation) || (p =? PFoundProduct) || (p =? PAfterLocation).
 
 Definition reaction (p r : Z) : Z :=
-  if p =? PAccept then (if r =? VClose then RCloseDirect else RIgnore)
+  if (p =? PAccept) || (p =? PHandshake) then (if r =? VClose then RCloseDirect else RIgnore)
   else if is_request_point p then
     (if r =? VClose then RCloseDirect else if r =? VFinish then RCloseAfterReply
      else if r =? VRedirect then RRedirect else if r =? VResponse then RResponse else RIgnore)
@@ -66,7 +67,7 @@ Definition reaction (p r : Z) : Z :=
   else if p =? PReadResponse then
     (if r =? VFinish then RCloseAfterReply else if r =? VRedirect then RRedirect else RIgnore)
   else if p =? PRequestFinish then (if r =? VFinish then RCloseAfterReply else RIgnore)
-  else RIgnore.   (* HandleHandshake is not exercised (plain HTTP); HandleFinish: result discarded *)
+  else RIgnore.   (* HandleFinish: result discarded *)
 
 (* ---- what the client sees ---- *)
 Record reply := mkReply { r_status : Z; r_body : list Z; r_loc : list Z; r_xfake : Z; r_xmod : Z }.
@@ -157,19 +158,26 @@ Definition enc_calls (tag : Z) (cs : list (Z * list Z)) : list Z :=
 
 Definition all_goon (h : nat) (_ : Z) : list Z := repeat VGoOn h.
 
-Definition serve_conn (h : nat) (bst : Z) (chains : Z -> list Z) : conn_result :=
+(* tls = the connection is a TLS connection: HandleHandshake runs after the handshake (conn.serve) *)
+Definition serve_conn (h : nat) (bst : Z) (tls : bool) (chains : Z -> list Z) : conn_result :=
   let '(c0, v0) := run_chain (chains PAccept) in
+  let '(c1, v1) := run_chain (chains PHandshake) in
   let '(c8, _) := run_chain (chains PFinish) in
   let fin := enc_calls 0 [(PFinish, c8)] in
   let acc := enc_calls 0 [(PAccept, c0)] in
+  let hs := if tls then enc_calls 0 [(PHandshake, c1)] else [] in
   if reaction PAccept (ret v0) =? RCloseDirect then mkConn (acc ++ fin) no_reply 0 0
+  else if tls && (reaction PHandshake (ret v1) =? RCloseDirect) then mkConn (acc ++ hs ++ fin) no_reply 0 0
   else
     let q1 := serve_request chains bst in
     if q_keep q1 then
       let q2 := serve_request (all_goon h) bst in
-      mkConn (acc ++ enc_calls 1 (q_calls q1) ++ enc_calls 2 (q_calls q2) ++ fin) (q_reply q1) (q_contacted q1) 1
-    else mkConn (acc ++ enc_calls 1 (q_calls q1) ++ fin) (q_reply q1) (q_contacted q1) 0.
+      mkConn (acc ++ hs ++ enc_calls 1 (q_calls q1) ++ enc_calls 2 (q_calls q2) ++ fin) (q_reply q1) (q_contacted q1) 1
+    else mkConn (acc ++ hs ++ enc_calls 1 (q_calls q1) ++ fin) (q_reply q1) (q_contacted q1) 0.
 
 Example ex_all_continue :
-  k_calls (serve_conn 1 200 (all_goon 1)) = [0; 201; 301; 401; 501; 601; 701; 202; 302; 402; 502; 602; 702; 800].
+  k_calls (serve_conn 1 200 false (all_goon 1)) = [0; 201; 301; 401; 501; 601; 701; 202; 302; 402; 502; 602; 702; 800].
+Proof. reflexivity. Qed.
+Example ex_all_continue_tls :
+  k_calls (serve_conn 1 200 true (all_goon 1)) = [0; 100; 201; 301; 401; 501; 601; 701; 202; 302; 402; 502; 602; 702; 800].
 Proof. reflexivity. Qed.
